@@ -54,6 +54,13 @@ REQS: dict[str, dict[str, Any]] = {
         "mismatch": [bytes.fromhex("7520 0ffa".replace(" ", "")), bytes.fromhex("7f2231")],
         "malformed": [bytes.fromhex("74104124"), bytes.fromhex("7400"), bytes.fromhex("74")],
     },
+    "rawrdbi": {
+        # what every scanner does: a well-formed request sent through send_raw(); the reply must still echo its identifier
+        "sid": 0x22,
+        "pos": bytes.fromhex("62f191aabb"),
+        "mismatch": [bytes.fromhex("62f190aabb"), bytes.fromhex("62f19200"), bytes.fromhex("5001003201f4"), bytes.fromhex("7f1031")],
+        "malformed": [bytes.fromhex("62f1"), bytes.fromhex("7f22")],
+    },
     "raw": {
         "sid": 0xBA,
         "pos": bytes.fromhex("fa0102"),
@@ -76,6 +83,8 @@ def make_request(kind: str) -> service.UDSRequest:
         return service.DiagnosticSessionControlRequest(3)
     if kind == "tp":
         return service.TesterPresentRequest()
+    if kind == "rawrdbi":
+        return service.RawRequest(bytes.fromhex("22f191"))
     if kind == "rd":
         return service.RequestDownloadRequest(memory_address=0x1000, memory_size=0x100, compression_method=0, encryption_method=0)
     return service.RawRequest(bytes.fromhex("ba0102"))
